@@ -33,7 +33,7 @@ type c15Ev struct {
 }
 
 type c15Op struct {
-	K   string  `json:"k"`             // sub ev evs noop bulk churn brk reload
+	K   string  `json:"k"`             // sub ev evs noop bulk churn brk reload pub pstop ppause presume pka
 	P   int     `json:"p,omitempty"`   // prefix index
 	Key int     `json:"key,omitempty"` // key index
 	Val int     `json:"v,omitempty"`   // value index
@@ -45,15 +45,22 @@ type c15Op struct {
 	Md  string  `json:"md,omitempty"`  // brk: stall close cancel error
 	N   int     `json:"n,omitempty"`   // sub/reload: failing Gets first; bulk/churn: number of keys/events
 	H   int     `json:"h,omitempty"`   // sub/reload: Gets that hang until the request time-out first
+	D   int     `json:"d,omitempty"`   // sub/reload: the registry is unavailable for D ms of virtual time from the start of the op, then recovers
+	DM  []int   `json:"dm,omitempty"`  // sub/reload: treatment of the Gets issued during the outage, cycled: <0 black hole until the caller's context is done, 0 error at once, k>0 error after k*100 ms
+	Ac  bool    `json:"ac,omitempty"`  // sub: WithSubEtcdAccount option (no effect on an established client)
 	O2  bool    `json:"o2,omitempty"`  // sub: every option is passed twice (variadic form with several options)
 	Mid []c15Ev `json:"mid,omitempty"` // sub/reload: events on prefix P between the snapshot and the watch
 	Gap []c15Ev `json:"gap,omitempty"` // brk: events on prefix P after the streams ended, before the watches are re-created
 	Sch []int   `json:"sch,omitempty"` // brk: which replaying watcher receives its next response (then first-come)
+	// publisher ops (real discov.Publisher writing to the fake): pub = NewPublisher(P, value V)[WithId(500+Key) if Key>0].KeepAlive(),
+	// N=1 Grant fails, N=2 Put fails; pstop/ppause/presume: publisher number Key; pka: the keep-alive channel of the Key-th
+	// live lease ends (X: the lease has also expired on the server); M: the subscribers' watch misses the resulting events
 }
 
 type c15Case struct {
 	Rev0  int64   `json:"rev0"`
-	A     int     `json:"a,omitempty"` // alphabet of keys and values
+	Lease int64   `json:"lease,omitempty"` // first lease id handed out (0 = 1)
+	A     int     `json:"a,omitempty"`     // alphabet of keys and values
 	Batch bool    `json:"b,omitempty"`
 	Ops   []c15Op `json:"ops"`
 }
@@ -351,17 +358,51 @@ func c15Interp(t *testing.T, c c15Case) (v kit.Verdict) {
 	for p := range m.store {
 		m.store[p], m.lastVal[p] = map[string]string{}, map[string]string{}
 	}
+	var fake *internal.C15Fake
 	res := kit.Bubble(t, func() {
 		eps := fmt.Sprintf("c15-%d.verif:2379", c15Seq.Add(1))
-		fake := internal.NewC15Fake(c.Rev0, c.Batch)
+		fake = internal.NewC15Fake(c.Rev0, c.Batch)
 		internal.C15Inject([]string{eps}, fake)
 		defer func() {
 			internal.C15Shutdown([]string{eps})
 			fake.Release()
 		}()
 		reloads := 0
+		var rev0Watch [3]bool // a watcher of the prefix was started from revision 0 (see "sub")
+		// faults installs the Get faults of a sub/reload op and returns the virtual time within which
+		// cluster.load must have taken its snapshot, by the code's own constants: every scripted
+		// failing attempt costs at most one request time-out plus one cool-down, and after the end
+		// of an outage one attempt that was in flight may still run into its time-out (C15RetryBound)
+		faults := func(o c15Op) time.Duration {
+			cd, rt := internal.C15CoolDown(), internal.RequestTimeout
+			if o.N > 0 {
+				classes["get-errors"] = true
+				fake.FailGets(o.N)
+			}
+			if o.H > 0 {
+				classes["get-black-hole-until-timeout"] = true
+				fake.HangGets(o.H)
+			}
+			if o.D > 0 {
+				classes["registry-outage"] = true
+				if time.Duration(o.D)*time.Millisecond > rt {
+					classes["registry-outage-longer-than-request-timeout"] = true
+				}
+				fake.Outage(time.Duration(o.D)*time.Millisecond, o.DM)
+			}
+			return time.Duration(o.N)*cd + time.Duration(o.H)*(rt+cd) + time.Duration(o.D)*time.Millisecond + internal.C15RetryBound() + 50*time.Millisecond
+		}
+		// converged: at the bound every snapshot Get must have been answered
+		converged := func(what string, bound time.Duration) bool {
+			if f := fake.Failing(); f != "" {
+				fail = fmt.Sprintf("%s: subscriber view did not converge within %v of virtual time (scripted faults + RequestTimeout + coolDownInterval): the fake etcd answers again, but the snapshot Get of %s has not succeeded", what, bound, f)
+				return false
+			}
+			return true
+		}
 		var reloadOp func(what string, o c15Op) bool
 		var pump func(sched []int)
+		var check func(what string, only *c15Sub) bool
 		addedInOutage := [3]map[string]int{{}, {}, {}} // key -> outage number (reloads so far) of its missed put
 
 		// Re-entrant change listeners. On the unmodified tree every notification path (watch event,
@@ -450,8 +491,82 @@ func c15Interp(t *testing.T, c c15Case) (v kit.Verdict) {
 			return true
 		}
 
+		// Real publishers (discov.NewPublisher ... KeepAlive / Pause / Resume / Stop) write to the fake
+		// through Registry.GetConn; the model learns what they did from the fake's store (the
+		// registry is the truth of the statement, the publisher is part of the environment).
+		type pubT struct {
+			p      *discov.Publisher
+			state  int // 0 live (goroutine in its select loop), 1 paused, 2 stopped / never started
+			id     int // WithId(500+id), 0 = key from the lease id
+			prefix int
+		}
+		var pubs []*pubT
+		if c.Lease != 0 {
+			fake.SetLeaseBase(c.Lease)
+		}
+		defer func() {
+			for _, pb := range pubs {
+				pb.p.Stop()
+			}
+			kit.Wait()
+			fake.ClientEvents()
+		}()
+		absorb := func(what string, lost bool) bool {
+			before := make([]int64, len(m.subs))
+			for j, s := range m.subs {
+				before[j] = s.lastNotif
+			}
+			var delivered [3]bool
+			for _, e := range fake.ClientEvents() {
+				q := -1
+				for i := 0; i < 2; i++ {
+					if strings.HasPrefix(e.Key, c15Prefixes[i]+"/") {
+						q = i
+					}
+				}
+				if q < 0 {
+					fail = fmt.Sprintf("%s: harness: publisher wrote key %q outside the prefixes", what, e.Key)
+					return false
+				}
+				if e.Lost != lost {
+					fail = what + ": harness: lost flag of a publisher event"
+					return false
+				}
+				if e.Del {
+					delete(m.store[q], e.Key)
+				} else {
+					if old, ok := m.store[q][e.Key]; ok && old != e.Val {
+						fail = fmt.Sprintf("%s: harness: publisher re-valued live key %q", what, e.Key)
+						return false
+					}
+					m.store[q][e.Key], m.lastVal[q][e.Key] = e.Val, e.Val
+					if len(m.holders(q, e.Val)) >= 2 && hasSub(m, q) {
+						classes["value-shared-by-keys"] = true
+						nontrivial = true
+					}
+				}
+				delete(addedInOutage[q], e.Key)
+				if e.Lost {
+					classes["missed-event"] = true
+					m.lostSinceLoad[q] = true
+					m.missed(q, e.Val)
+				} else {
+					m.seen(q, e.Del, e.Key, e.Val, false)
+					delivered[q] = true
+				}
+			}
+			pump(nil)
+			for j, s := range m.subs {
+				if j < len(before) && delivered[s.p] && s.notif.Load() == before[j] {
+					fail = fmt.Sprintf("%s: a publisher's event was delivered but the change listener of subscriber %d did not run", what, j)
+					return false
+				}
+			}
+			return check(what, nil)
+		}
+
 		// check compares every in-sync subscriber with the model store.
-		check := func(what string, only *c15Sub) bool {
+		check = func(what string, only *c15Sub) bool {
 			if only == nil && !adopt(what) {
 				return false
 			}
@@ -518,13 +633,14 @@ func c15Interp(t *testing.T, c c15Case) (v kit.Verdict) {
 			if len(m.subs) == 0 {
 				return true
 			}
-			if o.N > 0 {
-				classes["get-errors"] = true
-				fake.FailGets(o.N)
-			}
-			if o.H > 0 {
-				classes["get-black-hole-until-timeout"] = true
-				fake.HangGets(o.H)
+			bound := faults(o)
+			rev0Watch = [3]bool{}
+			if fake.Rev() == 0 {
+				classes["unspecified:store-revision-0"] = true
+				o.Mid = nil
+				for q := 0; q < 2; q++ {
+					rev0Watch[q] = hasSub(m, q)
+				}
 			}
 			fake.MarkStale() // reload stops the current watchers: their streams are abandoned
 			var mids []c15LogEv
@@ -561,10 +677,10 @@ func c15Interp(t *testing.T, c c15Case) (v kit.Verdict) {
 				fail = what + ": harness: no cluster to reload"
 				return false
 			}
-			time.Sleep(time.Duration(o.N+5*o.H)*time.Second + 50*time.Millisecond)
+			time.Sleep(bound)
 			kit.Wait()
 			pump(nil) // the new watchers replay the events after their snapshots
-			return check(what, nil)
+			return converged(what, bound) && check(what, nil)
 		}
 
 		// pump hands pending replays to the watchers one response at a time
@@ -647,10 +763,131 @@ func c15Interp(t *testing.T, c c15Case) (v kit.Verdict) {
 				if !check(what, nil) {
 					return
 				}
+			case "pub":
+				if len(pubs) >= 6 {
+					continue
+				}
+				classes["publisher"] = true
+				var opts []discov.PubOption
+				if o.Key > 0 {
+					classes["publisher-with-id"] = true
+					opts = append(opts, discov.WithId(int64(500+o.Key)))
+					taken := false
+					for _, q := range pubs {
+						if q.id == o.Key && q.prefix == p {
+							// a publisher that has given up may have left its key behind (lease not yet run out)
+							_, left := m.store[p][fmt.Sprintf("%s/%d", c15Prefixes[p], 500+o.Key)]
+							if q.state != 2 || left {
+								taken = true
+							}
+						}
+					}
+					if taken {
+						// two publishers under one id (one of them may be paused and come back) would give one key two values during its life
+						continue
+					}
+				}
+				switch o.N {
+				case 1:
+					classes["publisher-grant-fails"] = true
+					fake.FailLeaseCalls(1, 0, 0)
+				case 2:
+					classes["publisher-put-fails"] = true
+					fake.FailLeaseCalls(0, 1, 0)
+				case 3:
+					// the key is registered, but it will not be kept alive (it stays until its lease runs out)
+					classes["publisher-keepalive-call-fails"] = true
+					fake.FailLeaseCalls(0, 0, 1)
+				}
+				fake.LoseClientEvents(o.M)
+				pb := &pubT{p: discov.NewPublisher([]string{eps}, c15Prefixes[p], c15Val(o.Val), opts...), id: o.Key, prefix: p}
+				err := pb.p.KeepAlive()
+				if (o.N >= 1 && o.N <= 3) != (err != nil) {
+					fail = fmt.Sprintf("%s: Publisher.KeepAlive returned %v (scripted failure: %v)", what, err, o.N)
+					return
+				}
+				if err != nil {
+					pb.state = 2
+				}
+				pubs = append(pubs, pb)
+				kit.Wait()
+				fake.LoseClientEvents(false)
+				if !absorb(what, o.M) {
+					return
+				}
+			case "pstop", "ppause", "presume":
+				if len(pubs) == 0 {
+					continue
+				}
+				pb := pubs[o.Key%len(pubs)]
+				fake.LoseClientEvents(o.M)
+				switch {
+				case o.K == "pstop":
+					classes["publisher-stop"] = true
+					pb.p.Stop() // also when it is stopped already
+					pb.state = 2
+				case o.K == "ppause" && pb.state == 0:
+					classes["publisher-pause"] = true
+					pb.p.Pause()
+					pb.state = 1
+				case o.K == "presume" && pb.state == 1:
+					classes["publisher-resume"] = true
+					if o.N == 1 {
+						// the registration after the resume fails: the publisher logs it and gives up for good
+						classes["publisher-resume-fails"] = true
+						fake.FailLeaseCalls(1, 0, 0)
+						pb.state = 2
+					} else {
+						pb.state = 0
+					}
+					pb.p.Resume()
+				}
+				kit.Wait()
+				fake.LoseClientEvents(false)
+				if !absorb(what, o.M) {
+					return
+				}
+			case "pka":
+				// the keep-alive channel of a lease ends: the publisher revokes and registers again
+				fake.LoseClientEvents(o.M)
+				var only *pubT
+				nlive := 0
+				for _, q := range pubs {
+					if q.state == 0 {
+						only, nlive = q, nlive+1
+					}
+				}
+				if o.N == 1 && nlive == 1 {
+					// the registration after the lost keep-alive fails: the (only live) publisher gives up for good
+					classes["publisher-reregistration-fails"] = true
+					fake.FailLeaseCalls(1, 0, 0)
+					only.state = 2
+				}
+				// two events (the old key goes, the new registration comes) without a quiescence point between
+				// them: a join from inside a listener would race with the second one (rule join-race, open
+				// finding join-misses-event-during-replay) — listeners stay passive, as for "evs"
+				attachOn.Store(false)
+				if fake.EndKeepAlive(o.Key, o.X) {
+					classes["publisher-keepalive-ended"] = true
+					if o.X {
+						classes["publisher-lease-expired"] = true
+					}
+				}
+				kit.Wait()
+				attachOn.Store(true)
+				fake.LoseClientEvents(false)
+				if !absorb(what, o.M) {
+					return
+				}
 			case "noop":
 				// a response without events (progress notification) must change nothing and end nothing
 				classes["empty-watch-response"] = true
 				fake.SendEmpty()
+				if o.X {
+					// an event that is neither a put nor a delete: the registry did not change
+					classes["unspecified:unknown-event-type"] = true
+					fake.SendUnknown(c15Key(p, o.Key))
+				}
 				kit.Wait()
 				if !check(what, nil) {
 					return
@@ -760,6 +997,9 @@ func c15Interp(t *testing.T, c c15Case) (v kit.Verdict) {
 				// events in the gap: no stream carries them; a subscriber learns them only through the
 				// start revision of the watch its watcher re-creates (the model sees them in pump)
 				var gap []internal.C15Gap
+				if rev0Watch[p] {
+					o.Gap = nil
+				}
 				for _, e := range o.Gap {
 					g := m.toggle(p, e, false)
 					gap = append(gap, internal.C15Gap{Del: g.del, Key: g.key, Val: g.val})
@@ -789,14 +1029,7 @@ func c15Interp(t *testing.T, c c15Case) (v kit.Verdict) {
 					classes["listener-subscribes-other-key"] = true
 				}
 				s := &c15Sub{p: p, x: o.X, cands: map[string]map[string]bool{}, pres: map[string]int{}, touched: map[string]bool{}}
-				if o.N > 0 {
-					classes["get-errors"] = true
-					fake.FailGets(o.N)
-				}
-				if o.H > 0 {
-					classes["get-black-hole-until-timeout"] = true
-					fake.HangGets(o.H)
-				}
+				faults(o)
 				for _, q := range m.subs {
 					if q.p == p {
 						classes["late-join"] = true
@@ -826,6 +1059,14 @@ func c15Interp(t *testing.T, c c15Case) (v kit.Verdict) {
 					}
 				}
 				var mids []c15LogEv
+				if fake.Rev() == 0 {
+					// a store that was never written reports revision 0 (no real etcd does): the code then
+					// watches "from now", so events between the snapshot and the watch, and events in the gap
+					// before a watch of this watcher is re-created, are outside the claim — not generated
+					classes["unspecified:store-revision-0"] = true
+					o.Mid = nil
+					rev0Watch[p] = true
+				}
 				for _, e := range o.Mid {
 					// the joiner's snapshot diff races with the running watchers of the prefix; with a
 					// re-valued key the outcome would depend on the scheduler, so a re-registered key
@@ -844,6 +1085,10 @@ func c15Interp(t *testing.T, c c15Case) (v kit.Verdict) {
 				var opts []discov.SubOption
 				if o.X {
 					opts = append(opts, discov.Exclusive())
+				}
+				if o.Ac {
+					classes["option-etcd-account"] = true
+					opts = append(opts, discov.WithSubEtcdAccount("user", "pass"))
 				}
 				if o.O2 {
 					classes["options-passed-twice"] = true
@@ -916,6 +1161,11 @@ func c15Interp(t *testing.T, c c15Case) (v kit.Verdict) {
 		v.Classes = append(v.Classes, k)
 	}
 	sort.Strings(v.Classes)
+	if stuck := fake.IsStuck(); stuck != "" && fail == "" {
+		// cluster.load retried for ever in virtual time (NewSubscriber never returned, or the watchers
+		// could not be stopped at the end of the case); the fake froze it, the bubble ended as a hang
+		fail = stuck
+	}
 	if fail != "" {
 		v.Fail = fail
 	} else if !res.OK() {
@@ -945,7 +1195,7 @@ func hasSub(m *c15Model, p int) bool {
 
 func c15Gen(rt *rapid.T) c15Case {
 	c := c15Case{
-		Rev0:  rapid.SampledFrom([]int64{1, 1, 1, 7, 100, 1<<31 - 1, 1 << 32, 1 << 53, 1 << 62}).Draw(rt, "rev0"),
+		Rev0:  rapid.SampledFrom([]int64{1, 1, 1, 7, 100, 1<<31 - 1, 1 << 32, 1 << 53, 1 << 62, 0}).Draw(rt, "rev0"),
 		Batch: rapid.Bool().Draw(rt, "batch"),
 	}
 	if rapid.IntRange(0, 3).Draw(rt, "hasalpha") == 0 {
@@ -956,6 +1206,11 @@ func c15Gen(rt *rapid.T) c15Case {
 	heavyCase, heavy := rapid.IntRange(0, 39).Draw(rt, "heavycase") == 0, 0
 	var nsub [2]int
 	outage, dirty := false, false
+	// one case in three has real publishers
+	pubCase, npub := rapid.IntRange(0, 2).Draw(rt, "pubcase") == 0, 0
+	if pubCase {
+		c.Lease = rapid.SampledFrom([]int64{0, 0, 7, 7587862094236485121, 1<<62 + 5}).Draw(rt, "leasebase")
+	}
 
 	pickPrefix := func(label string) int {
 		if rapid.IntRange(0, 9).Draw(rt, label) < 8 {
@@ -991,7 +1246,16 @@ func c15Gen(rt *rapid.T) c15Case {
 		if rapid.IntRange(0, 9).Draw(rt, "hashang") != 0 {
 			return 0
 		}
-		return 1
+		return rapid.IntRange(1, 2).Draw(rt, "nhang")
+	}
+	// the registry is unavailable for a generated virtual duration around and beyond the request
+	// time-out (3 s), then answers again
+	outageOf := func(o *c15Op) {
+		if rapid.IntRange(0, 5).Draw(rt, "hasoutage") != 0 {
+			return
+		}
+		o.D = rapid.SampledFrom([]int{400, 2900, 3000, 3100, 4000, 6500, 9000, 12000, 30000}).Draw(rt, "outagems")
+		o.DM = rapid.SliceOfN(rapid.SampledFrom([]int{-1, 0, 0, 3, 12, 29, 35}), 1, 3).Draw(rt, "outagemodes")
 	}
 	for i := 0; i < n; i++ {
 		var kinds []string
@@ -1011,6 +1275,14 @@ func c15Gen(rt *rapid.T) c15Case {
 				kinds = append(kinds, "reload", "reload")
 			}
 		}
+		if pubCase {
+			if npub < 4 {
+				kinds = append(kinds, "pub", "pub", "pub")
+			}
+			if npub > 0 {
+				kinds = append(kinds, "pstop", "ppause", "ppause", "presume", "presume", "pka", "pka")
+			}
+		}
 		k := rapid.SampledFrom(kinds).Draw(rt, "kind")
 		o := c15Op{K: k}
 		switch k {
@@ -1026,6 +1298,28 @@ func c15Gen(rt *rapid.T) c15Case {
 			if o.M && nsub[o.P] > 0 {
 				dirty = true
 			}
+		case "pub":
+			o.P = pickPrefix("pubp")
+			o.Val = rapid.IntRange(0, 3).Draw(rt, "val")
+			if rapid.IntRange(0, 2).Draw(rt, "withid") == 0 {
+				o.Key = rapid.IntRange(1, 3).Draw(rt, "pubid")
+			}
+			if rapid.IntRange(0, 7).Draw(rt, "pubfail") == 0 {
+				o.N = rapid.IntRange(1, 3).Draw(rt, "pubfailwhat")
+			}
+			o.M = outage && rapid.Bool().Draw(rt, "missed")
+			npub++
+		case "pstop", "ppause", "presume", "pka":
+			o.Key = rapid.IntRange(0, 5).Draw(rt, "which")
+			o.X = k == "pka" && rapid.Bool().Draw(rt, "expired")
+			if (k == "presume" || k == "pka") && rapid.IntRange(0, 5).Draw(rt, "regfail") == 0 {
+				o.N = 1
+			}
+			o.M = outage && rapid.Bool().Draw(rt, "missed")
+		case "noop":
+			o.P = pickPrefix("noopp")
+			o.X = rapid.Bool().Draw(rt, "unknowntype")
+			o.Key = rapid.IntRange(0, 5).Draw(rt, "key")
 		case "evs":
 			o.P = pickPrefix("evsp")
 			for j := rapid.IntRange(2, 4).Draw(rt, "nevs"); j > 0; j-- {
@@ -1062,15 +1356,21 @@ func c15Gen(rt *rapid.T) c15Case {
 			}
 			o.N = getErrs()
 			o.H = hangs()
+			outageOf(&o)
 			o.O2 = rapid.IntRange(0, 5).Draw(rt, "opts2") == 0
+			o.Ac = rapid.IntRange(0, 9).Draw(rt, "account") == 0
 			o.Mid = mids()
 			nsub[o.P]++
 		case "reload":
 			o.P = pickPrefix("relp")
 			o.N = getErrs()
 			o.H = hangs()
+			outageOf(&o)
 			o.Mid = mids()
 			outage, dirty = false, false
+		}
+		if o.M && k[0] == 'p' {
+			dirty = true
 		}
 		c.Ops = append(c.Ops, o)
 	}
